@@ -436,7 +436,7 @@ def check_eval(case):
 def eval_strategy(max_len):
     from hypothesis import strategies as st
 
-    span_descs = [d for d in spans.catalogue(max_len, min_len=1)
+    span_descs = [d for d in spans.catalogue(max_len, min_len=1) + spans.catalogue_long()
                   if all(isinstance(x, (str, int)) and x != '' for x in
                          (d.get('items') or [0]))]
 
